@@ -154,6 +154,28 @@ def _c08_nontrivial(docs):
     return len(docs) >= 2 and any(gov(d, "N") for d in docs[1:])
 
 
+def _gen_c14(rng, max_stages):
+    req = S.SD("required", None, form="tag")
+    g = S.Gen(rng, keys=("a", "b", "c"), atoms=(1, 2, "x", None), tags=("del", "force", "weak"),
+              max_depth=rng.choice([2, 3, 4]), max_width=3, p_tag=0.12, p_empty=0.08, leaf_extra=[req, req, S.with_tag(S.leaf(None), "del")])
+    n = rng.randint(1, max_stages)
+    docs = [_strip_below_lists(g.doc()) for _ in range(n)]
+    docs[0] = _strip_clear(docs[0])
+    # sometimes wrap a subtree's arguments in a recording call
+    if rng.random() < 0.4 and docs[0]["ch"]:
+        k, c = docs[0]["ch"][0]
+        if c["k"] == "dict" and c["form"] == "none":
+            c = dict(c); c["k"] = "call"; c["fn"] = "vmod.rec"; c["form"] = "tag"
+            docs[0] = dict(docs[0]); docs[0]["ch"] = [[k, c]] + docs[0]["ch"][1:]
+    return docs, [True] * n
+
+
+def _c14_nontrivial(docs):
+    def has_req(sd):
+        return sd["k"] == "required" or any(has_req(c) for _, c in sd["ch"])
+    return any(has_req(d) for d in docs)
+
+
 def _strip_clear(sd):
     sd = dict(sd)
     sd["ch"] = [[k, _strip_clear(c)] for k, c in sd["ch"] if c["k"] != "clear" and not (c["k"] == "scalar" and c["del"] == "T" and c["v"] == ["n", ""])]
@@ -244,6 +266,21 @@ BUILDER = {
                 "random overrides derived from the paths of the config built so far (existing or mutated). non-trivial = some later "
                 "document has a node below !notnew; distinct by content",
     },
+    "C14": {
+        "invariants": ["Inv_C14", "Inv_C14_Survivors"],
+        "driver": "builder+construct",
+        "exh": {"quick": [("C14_Docs", 1, 2, "C14_Range"), ("C14_Docs3", 3, 3, "C14_Range3")],
+                "thorough": [("C14_Docs", 1, 2, "C14_Range"), ("C14_Docs3", 3, 4, "C14_Range3")]},
+        "mutations": [{"mutation": "ScanTopLevelOnly", "docs": "C14_Docs3", "range": "C14_Range3", "stages": (1, 2), "expect": ["Inv_C14"]},
+                      {"mutation": "DropNewKeys", "docs": "C14_Docs3", "range": "C14_Range3", "stages": (2, 2), "expect": ["Inv_C14_Survivors"]}],
+        "witness": "C14_Witness",
+        "gen": _gen_c14, "random": {"quick": 1500, "thorough": 30000}, "max_stages": 4,
+        "nontrivial": _c14_nontrivial,
+        "rule": "A: every first document with 1 or !required at every position of mappings, lists and !call/!bind arguments x every later "
+                "document overriding, re-requiring or deleting (value-less !del, empty list) any subset, 1-2 stages (3-4 on a narrower "
+                "set); Config() is constructed for real, !call targets are recording functions; B: seeded random histories with "
+                "!required sprinkled over deeper trees. non-trivial = some document contains !required; distinct by content",
+    },
     "C15": {
         "invariants": ["Inv_C15"],
         "rel": "c15",
@@ -272,7 +309,7 @@ _BUILDER_NOTE = ("trusted: TLC 1.8, the YAML renderer and the projection of harn
                  "bounded universes (named in the evidence); direction B samples larger inputs, it does not enumerate them")
 ENGINES = [
     {"name": "builder-family", "path": "/verif/harness/builderfam.py",
-     "serves_properties": sorted(["C02", "C03", "C04", "C05", "C08", "C15"]),
+     "serves_properties": sorted(["C02", "C03", "C04", "C05", "C08", "C14", "C15"]),
      "kind_free_text": "TLC over spec/MC_Build.tla (AyBuild state machine: AddSource / FlattenFirst / MergeStage / Finish over "
                        "AyParse + AyMerge) checks the property invariants on every history of a bounded document universe and prints "
                        "each behaviour; every behaviour is replayed through the real Builder; recorded traces of seeded larger "
@@ -333,4 +370,12 @@ META["C08"] = {"engine": "builder-family", "design_ref": "DESIGN.md 5/C08",
             "(overrides through the real command-line grammar) and random histories validated by TLC.",
     "note": _BUILDER_NOTE + "; OverrideExact is claimed for scalar values (mapping values merge, list values longer than the "
             "existing list address new indices and fail by the !notnew rule itself)"}
+META["C14"] = {"engine": "builder-family", "design_ref": "DESIGN.md 5/C14",
+    "technique": "TLC model checking of AyBuild (Construct action) + trace validation / behaviour replay (Config construction) against the library",
+    "text": "The builder state machine ends with a Construct action (the !required check comes first, evaluation only after it passed). "
+            "TLC checks that construction fails iff the merged tree holds a !required node anywhere (mappings, lists, !call/!bind "
+            "arguments), that all of them are listed, and - against C02's declarative fold - that placeholders overridden or deleted "
+            "by later stages do not count; every behaviour is replayed with recording call targets (nothing may run before the check), "
+            "recorded histories are judged by TLC on the logged status / paths / call count.",
+    "note": _BUILDER_NOTE}
 NOT_APPLICABLE = {}
